@@ -81,6 +81,73 @@ Definition R_mt (n t r : nat) (has_task interleaved : bool) (d : nat -> car) (F 
 Definition marginal_mean (m : M) : M := m.
 Definition marginal_cov (C R : M) : M := madd C R.
 
+(* homoskedastic noise with a call-time kwarg (_HomoskedasticNoiseBase.forward: "If a 'noise' kwarg
+   (a Tensor) is provided, this noise is used directly") *)
+Definition R_homo_call (s2 : car) (call : option (nat -> car)) : M :=
+  match call with Some c => mdiag c | None => R_homo s2 end.
+
+(* ---- specification histories of a FixedNoiseGaussianLikelihood -------------------------------
+   Every public way of (re)specifying a noise component is an operation on the state
+   (stored fixed noise, learned sigma^2):
+     constructor FixedNoiseGaussianLikelihood(noise=v)        : fixed := clamp v   (FixedGaussianNoise.__init__
+                                                                 rounds values below settings.min_fixed_noise up)
+     lik.noise = v / lik.initialize(noise=v)                   : fixed := v         (replaces the fixed part ONLY)
+     lik.second_noise = s / initialize(second_noise=s) / raw   : learned := s       (only if learn_additional_noise)
+     get_fantasy_likelihood(noise=nw)                          : fixed := fixed ++ clamp nw   (constructor again)
+   and the call-time noise kwarg replaces the fixed part for that call only, exactly as passed. *)
+Inductive spec_op :=
+| OpFixed (v : list car)
+| OpSecond (s : car)
+| OpFantasy (nw : list car).
+
+Record nstate := mk_nstate { st_fixed : list car; st_learned : option car }.
+
+Definition spec_init (clampf : car -> car) (v : list car) (l : option car) : nstate :=
+  mk_nstate (map clampf v) l.
+
+Definition spec_step (clampf : car -> car) (st : nstate) (op : spec_op) : nstate :=
+  match op with
+  | OpFixed v => mk_nstate v (st_learned st)
+  | OpSecond s => mk_nstate (st_fixed st) (match st_learned st with Some _ => Some s | None => None end)
+  | OpFantasy nw => mk_nstate (st_fixed st ++ map clampf nw) (st_learned st)
+  end.
+
+Definition spec_run (clampf : car -> car) (ops : list spec_op) (st : nstate) : nstate :=
+  fold_left (spec_step clampf) ops st.
+
+Definition lfn (l : list car) : nat -> car := fun i => nth i l 0.
+
+(* what the likelihood in state st adds to a distribution over N points *)
+Definition R_hist (N : nat) (st : nstate) (call : option (nat -> car)) : M :=
+  R_fixed N (length (st_fixed st)) (lfn (st_fixed st)) call (st_learned st).
+
+(* ---- "last specification wins" for likelihoods whose components are plain parameters
+   (GaussianLikelihood.noise, MultitaskGaussianLikelihood.noise / task_noises / task_noise_covar_factor,
+   through setters, initialize(...) or the raw parameters): a component holds the value of the last
+   operation that addressed it *)
+Definition last_spec {V : Type} (init : V) (ops : list V) : V := fold_left (fun _ v => v) ops init.
+
+Inductive mt_op :=
+| MGlob (s : car)
+| MTask (d : list car)
+| MFactor (F : list (list car)).
+
+Record mt_state := mk_mt { mt_glob : option car; mt_d : list car; mt_F : list (list car) }.
+
+Definition mt_step (st : mt_state) (op : mt_op) : mt_state :=
+  match op with
+  | MGlob s => mk_mt (match mt_glob st with Some _ => Some s | None => None end) (mt_d st) (mt_F st)
+  | MTask d => mk_mt (mt_glob st) d (mt_F st)
+  | MFactor F => mk_mt (mt_glob st) (mt_d st) F
+  end.
+
+Definition mt_run (ops : list mt_op) (st : mt_state) : mt_state := fold_left mt_step ops st.
+
+Definition lmat (F : list (list car)) : M := fun i j => nth j (nth i F nil) 0.
+
+Definition R_mt_hist (n t r : nat) (has_task interleaved : bool) (st : mt_state) : M :=
+  R_mt n t r has_task interleaved (lfn (mt_d st)) (lmat (mt_F st)) (mt_glob st).
+
 End Noise.
 
 (* ---- LikelihoodList routing: member k gets argument k (and noise k); length mismatch is an
@@ -135,7 +202,23 @@ Inductive lik_cfg :=
 | LFixed (stored : list Qc) (call : option (list Qc)) (learned : option Qc)
 | LFantasy (old : list Qc) (news : list (list Qc)) (learned : option Qc)
 | LMulti (t r : nat) (has_task interleaved : bool) (d : list Qc) (F : list (list Qc))
-         (glob : option Qc).
+         (glob : option Qc)
+| LHomoHist (s0 : Qc) (ops : list Qc) (call : option (list Qc))
+| LHist (floor : Qc) (init : list Qc) (learned0 : option Qc) (ops : list (@spec_op QcF))
+        (call : option (list Qc))
+| LMultiHist (t r : nat) (has_task interleaved : bool) (d0 : list Qc) (F0 : list (list Qc))
+             (glob0 : option Qc) (ops : list (@mt_op QcF)).
+
+(* monomorphic names for the case files *)
+Definition qOpFixed (v : list Qc) : @spec_op QcF := @OpFixed QcF v.
+Definition qOpSecond (s : Qc) : @spec_op QcF := @OpSecond QcF s.
+Definition qOpFantasy (v : list Qc) : @spec_op QcF := @OpFantasy QcF v.
+Definition qMGlob (s : Qc) : @mt_op QcF := @MGlob QcF s.
+Definition qMTask (d : list Qc) : @mt_op QcF := @MTask QcF d.
+Definition qMFactor (F : list (list Qc)) : @mt_op QcF := @MFactor QcF F.
+
+(* FixedGaussianNoise.__init__: noise.clamp_min(settings.min_fixed_noise.value(dtype)) *)
+Definition qc_clamp (floor v : Qc) : Qc := if Qclt_le_dec v floor then floor else v.
 
 (* N = size of the flattened event (n, or n*t) *)
 Definition R_of (N : nat) (c : lik_cfg) : @M QcF :=
@@ -151,6 +234,12 @@ Definition R_of (N : nat) (c : lik_cfg) : @M QcF :=
       R_fixed (K:=QcF) N (fst stored) (snd stored) None l
   | LMulti t r ht il d F g =>
       R_mt (K:=QcF) (N / t) t r ht il (fn_of_list d) (of_list (K:=QcF) F) g
+  | LHomoHist s0 ops call => R_homo_call (K:=QcF) (last_spec s0 ops) (opt_fn call)
+  | LHist floor init l0 ops call =>
+      R_hist (K:=QcF) N (spec_run (K:=QcF) (qc_clamp floor) ops (spec_init (K:=QcF) (qc_clamp floor) init l0))
+             (opt_fn call)
+  | LMultiHist t r ht il d0 F0 g0 ops =>
+      R_mt_hist (K:=QcF) (N / t) t r ht il (mt_run (K:=QcF) ops (mk_mt (K:=QcF) g0 d0 F0))
   end.
 
 (* case: (N, cfg, y, mean, diag C) with y, mean, diag C listed in the flat order of the event.
@@ -167,14 +256,24 @@ Definition run_c12 (c : nat * lik_cfg * list Qc * list Qc * list Qc) : list Z :=
 
 (* LikelihoodList: members are configurations, arguments are event sizes; result: per member
    the flattened R (prefixed by its size), or [0] on length mismatch *)
-Definition member_call (c : lik_cfg) (N : nat) (noise : option (list Qc)) : list Z :=
-  let c' := match c, noise with
-            | LFixed s _ l, Some nz => LFixed s (Some nz) l
-            | _, _ => c
-            end in
-  Z.of_nat N :: ser_mat N N (mat N N (R_of N c')).
+Definition with_call (c : lik_cfg) (noise : option (list Qc)) : lik_cfg :=
+  match c, noise with
+  | LFixed s _ l, Some nz => LFixed s (Some nz) l
+  | LHist fl i l ops _, Some nz => LHist fl i l ops (Some nz)
+  | LHomo s2, Some nz => LHomoHist s2 [] (Some nz)
+  | LHomoHist s2 ops _, Some nz => LHomoHist s2 ops (Some nz)
+  | _, _ => c
+  end.
 
-Definition run_c12_list (c : list lik_cfg * list nat * option (list (list Qc))) : list Z :=
+(* the per-member entry of LikelihoodList's noise list: a tensor, or None (= no call-time noise for
+   this member: it uses its own noise model) *)
+Definition entry_noise (e : option (option (list Qc))) : option (list Qc) :=
+  match e with Some (Some nz) => Some nz | _ => None end.
+
+Definition member_call (c : lik_cfg) (N : nat) (noise : option (option (list Qc))) : list Z :=
+  Z.of_nat N :: ser_mat N N (mat N N (R_of N (with_call c (entry_noise noise)))).
+
+Definition run_c12_list (c : list lik_cfg * list nat * option (list (option (list Qc)))) : list Z :=
   let '(ls, Ns, nz) := c in
   match list_call member_call ls Ns nz with
   | None => [0%Z]
